@@ -343,8 +343,8 @@ def _equality(lit: AST) -> Optional[tuple[AST, AST]]:
             ):
                 var = atom.term
                 rest = atom.guards[0].term
-                if var.name == "_":
-                    return None
+                if var.name == "_" or Variable(LOC, "_") in collect_ast(rest, "Variable"):
+                    return None  # every copy of an anonymous variable would be a different variable
                 return var, rest
         elif len(atom.guards) == 1 and atom.guards[0].term.ast_type == ASTType.Variable:
             if (atom.guards[0].comparison == ComparisonOperator.Equal and lit.sign == Sign.NoSign) or (
@@ -352,7 +352,7 @@ def _equality(lit: AST) -> Optional[tuple[AST, AST]]:
             ):
                 var = atom.guards[0].term
                 rest = atom.term
-                if var.name == "_":
+                if var.name == "_" or Variable(LOC, "_") in collect_ast(rest, "Variable"):
                     return None
                 return var, rest
     return None
